@@ -27,12 +27,49 @@ def mc_stage(pid, tier):
         out['states'] += r.distinct
         out['transitions'] += r.generated
         cfgs.append(cfg)
+    if tier == 'thorough':
+        out['large_grammars'] = large_grammar_mc()
+        out['states'] += out['large_grammars']['states']
+        out['transitions'] += out['large_grammars']['transitions']
     if pid == 'C02':
         # termination under weak fairness (liveness), uninterrupted runs
         cfg2 = os.path.join(core.SPEC, 'MC_PTQueue_live.cfg')
         r2 = core.tlc_must_pass(mod, cfg2, 'PTQueue liveness', timeout=1200)
         out['liveness'] = {'cfg': 'MC_PTQueue_live.cfg', 'states': r2.distinct, 'property': 'Terminates'}
     return out, cfgs
+
+
+def large_grammar_mc(n=12, seed=0):
+    """beyond the exhaustive grammar space: random larger grammars (3 variable types, structures of length up to 4, two
+    structures), each model-checked exhaustively over every tie choice, cut point and cycle (MC_PTQueue_file)"""
+    import json as _json
+    from concurrent.futures import ThreadPoolExecutor
+    rng = random.Random(seed + 77)
+    d = core.scratch('gfile')
+    jobs = []
+    for k in range(n):
+        W = []
+        for t in range(3):
+            g = rng.randint(1, 3)
+            W.append(sorted(rng.sample(range(1, 5), g), reverse=True))
+        S = []
+        for sidx in range(rng.randint(1, 2)):
+            S.append({'t': [rng.randint(1, 3) for _ in range(rng.randint(2, 4))], 'b': rng.randint(1, 2)})
+        S.sort(key=lambda x: -x['b'])
+        fn = os.path.join(d, 'g%d.json' % k)
+        with open(fn, 'w') as f:
+            _json.dump({'W': W, 'S': S}, f)
+        jobs.append(fn)
+
+    def run(fn):
+        return core.tlc(os.path.join(core.SPEC, 'MC_PTQueue_file.tla'), os.path.join(core.SPEC, 'MC_PTQueue_file.cfg'),
+                        workers=8, timeout=1500, env={'G_FILE': fn})
+    with ThreadPoolExecutor(2) as ex:
+        res = list(ex.map(run, jobs))
+    bad = [r for r in res if not r.ok]
+    if bad:
+        raise core.ModelViolation('PTQueue on a larger grammar', bad[0])
+    return {'cfg': 'MC_PTQueue_file.cfg', 'grammars': n, 'states': sum(r.distinct for r in res), 'transitions': sum(r.generated for r in res)}
 
 
 def second_run(jobs):
